@@ -285,6 +285,9 @@ func referenceLine(l []byte, bh *Header) error {
 		}
 	}
 
+	if !nok || !lok {
+		return errBadHeader
+	}
 	if dup {
 		if er := bh.refs[dupID]; equalRefs(er, rf) {
 			return nil
@@ -298,9 +301,6 @@ func referenceLine(l []byte, bh *Header) error {
 		rf.owner = bh
 		rf.id = dupID
 		return nil
-	}
-	if !nok || !lok {
-		return errBadHeader
 	}
 	id := int32(len(bh.refs))
 	rf.owner = bh
